@@ -466,3 +466,19 @@ Theorem C06_source_in_play : forall (A : Type) (d : Z) (g : list (@row A)) (s e 
   in_play g s e = filter (fun r => Gen.FnIvInPlay.fn_in_play d (lo r) (hi r) s e) g /\
   in_play g s e = filter (fun r => Gen.FnIvInPlay.fn_in_play_split d (lo r) (hi r) s e) g.
 Proof. exact @source_in_play. Qed.
+
+(* intersection(mode="trim"): one iteration of intersect.iter_ranges read for one selected row
+   (Gen/FnRangesIter.v, the module of C07's loop tie): trim_row IS the generated iteration in mode
+   "trim" with the query's bounds; intersect_chunks is that over the rows overlapping each query *)
+From CNV Require Import Proofs.FnIvTrim.
+From CNV Require Gen.FnRangesIter.
+
+Theorem C06_source_trim_row : forall (A : Type) (qs qe d1 d2 : Z) (r : @row A),
+  trim_row qs qe r = src_trim_row qs qe d1 d2 r.
+Proof. exact @source_trim_row. Qed.
+
+Theorem C06_source_intersect_chunks : forall (A B : Type) (d1 d2 : Z) (a : list (@row A)) (b : list (@row B)),
+  intersect_chunks a b =
+  filter (fun c => negb (Nat.eqb (length c) 0))
+         (map (fun q => map (src_trim_row (lo q) (hi q) d1 d2) (filter (overlaps (lo q) (hi q)) a)) b).
+Proof. exact @source_intersect_chunks. Qed.
